@@ -199,7 +199,7 @@ class state_machine_base : public FrontEnd
     struct event_pool_t
     {
         event_container_t events;
-        uint16_t cur_seq_cnt{};
+        event_seq_cnt_t cur_seq_cnt{};
     };
 
     using event_pool_member = optional_instance<
@@ -832,7 +832,7 @@ class state_machine_base : public FrontEnd
         {
         }
 
-        static std::optional<process_result> try_process(event_occurrence& self, void* sm, uint16_t /*seq_cnt*/)
+        static std::optional<process_result> try_process(event_occurrence& self, void* sm, event_seq_cnt_t /*seq_cnt*/)
         {
             return static_cast<completion_event_occurrence*>(&self)
                 ->try_process_impl(*reinterpret_cast<derived_t*>(sm));
@@ -966,7 +966,7 @@ class state_machine_base : public FrontEnd
     void do_defer_event(const Event& event, bool next_rtc_seq)
     {
         auto& event_pool = get_event_pool();
-        const uint16_t seq_cnt = next_rtc_seq ? event_pool.cur_seq_cnt
+        const event_seq_cnt_t seq_cnt = next_rtc_seq ? event_pool.cur_seq_cnt
                                               : event_pool.cur_seq_cnt - 1;
         event_pool.events.push_back(processable_event::make(
             deferred_event<Event>{self(), event, seq_cnt}));
